@@ -394,6 +394,19 @@ where
                 h.expect(!v.is_ok(), "C04.identity_serde_blind", "proof object with an identity point accepted by blind_proof_verify", &[h.last()]);
             }
         }
+        // each of the three points shifted by a point of order 3 outside G1
+        for (pi, off) in [0usize, 48, 96].iter().enumerate() {
+            if let Some(a2) = crate::gen::with_small_order_component(&pb[*off..*off + 48], 0) {
+                let mut fb = pb.clone();
+                fb[*off..*off + 48].copy_from_slice(&a2);
+                let dd = dec(h, "proof", &fb);
+                h.stat("C04.small_order_point");
+                h.expect(!dd.is_ok(), "C04.small_order_decode", &format!("proof decoder accepted point {} outside the prime-order group", pi), &[h.last()]);
+                if dd.is_ok() {
+                    expect_reject::<CS>(h, "small_order_point", &pk, &fb, hdr.as_deref(), ph.as_deref(), &dm, &d);
+                }
+            }
+        }
         // statement edits
         for i in 0..d.len() {
             let mut m = dm.clone();
